@@ -105,6 +105,8 @@ def scenario_list(quick):
     out.append(dict(config='match', timeouts=True, budget=dict(trig=1, fault=1, tick=2) if quick else dict(trig=2, fault=1, tick=2)))
     out.append(dict(config='ke-mismatch', timeouts=True, kinds=('acquire', 'soft', 'rekey_ike'),
                     budget=dict(trig=1, fault=1, tick=2) if quick else dict(trig=2, fault=1, tick=2)))
+    # several local events queued behind one outstanding request at A (some of them moot by the time they are replayed)
+    out.append(dict(config='match', kinds=('dpd', 'hard', 'acquire'), budget=dict(trigA=3, trigB=1, fault=0)))
     # two IKE_SAs per endpoint for one connection (simultaneous initiation), INVALID_KE retries on the way
     out.append(dict(config='ke-mismatch', start='double', kinds=('acquire', 'soft', 'rekey_ike'),
                     budget=dict(trig=2, fault=0) if quick else dict(trig=3, fault=0)))
@@ -229,6 +231,34 @@ def m_fsm(pre, ev, post):
                 yield ('M-fsm', '%s:%s->%s' % (kind, ps.state.name, post_state.name),
                        '%s: IKE_SA %s made the step %s -> %s on %s, which the reference state machine does not allow'
                        % (name, spi.hex(), ps.state.name, post_state.name, P.ev_label(pre, ev)))
+
+
+def m_queue(pre, ev, post):
+    """lost wake-up: local events queued while a request was outstanding are replayed when its response has been
+    processed (allowing one more timer sweep for an implementation that defers it to the next loop iteration)"""
+    kind, d = event_kind(pre, ev)
+    if kind != 'response' or d is None:
+        return
+    ep_pre = pre.ep_by_addr(d.dst)
+    if ep_pre is None:
+        return
+    ep = post.endpoints[ep_pre.name]
+    if not ep.alive:
+        return
+    local = d.desc[1] if d.desc[4] else d.desc[0]
+    pre_sa = next((x for x in ep_pre.controller.ike_sas if bytes(x.my_spi) == local), None)
+    sa = next((x for x in ep.controller.ike_sas if bytes(x.my_spi) == local), None)
+    if sa is None or pre_sa is None or pre_sa.state not in REQ_SENT_STATES:
+        return
+    COVER['M-queue:responses-with-queue' if pre_sa.pending_events else 'M-queue:responses'] += 1
+    if sa.state == S_.ESTABLISHED and sa.pending_events:
+        w = post.fork()
+        w.step(('tick', 1.0))
+        sa2 = next((x for x in w.endpoints[ep.name].controller.ike_sas if bytes(x.my_spi) == local), None)
+        if sa2 is not None and sa2.state == S_.ESTABLISHED and sa2.pending_events:
+            yield ('M-queue', 'queued-events-left-behind:%d' % len(sa2.pending_events),
+                   '%s: IKE_SA %s is idle again after %s but %d queued local event(s) were not replayed' % (
+                       ep.name, local.hex(), P.ev_label(pre, ev), len(sa2.pending_events)))
 
 
 # ------------------------------------------------------------------ M-coll
